@@ -134,6 +134,7 @@ from .iter_elim import (
     index_access,
     is_access_path,
     plan_for_zip,
+    stage_rebinds,
 )
 
 
@@ -230,6 +231,10 @@ class _ZipElimInstance(DefaultTransformVisitor):
         subst: dict[NamedId, Expr] = {}
 
         for target, iterable in zip(e.targets, e.iterables):
+            if subst and stage_rebinds(subst, target):
+                # this stage re-binds a name an earlier one had eliminated, or
+                # one its inlined reads use: leave the comprehension alone
+                return super()._visit_list_comp(e, ctx)
             new_iter = self._visit_expr(iterable, ctx)
             # A later stage's iterable may reference an earlier stage's
             # target (``[... for a, b in zip(xs, ys) for c in a]``), whose
